@@ -48,19 +48,24 @@ IGNORED_NAMES = ("rb", "r", "bl")                        # command()/query() ign
 COMMAND_TEXTS = ["SM,100,10,-10", "EM,1,1", "SP,1,100", "TP", "CS", "SC,4,12000", "SR,60000",
                  "PO,B,3,0", "PD,B,3,0", "HM,1000", "XM,100,5,5", "LM,85899346,10,0,85899346,-10,0",
                  "T3,1,0,0,0,0,0,0,3", "SL,7,3", "CU,50,0", "S2,0,4", " SM,1,0,0 ", "\tTP\t", "EM,0,0\r"]
+# the reset family (I/O errors after them are deliberately ignored - the latch is not); only used for
+# requests on objects that are expected to be blocked, because on a healthy object they reset the board
+RESET_TEXTS = ["BL", "RB", "R", "bl", " BL ", "rb"]
 QUERY_TEXTS = ["QG", "QS", "QE", "QC", "QT", "QL,3", "QP", "QB", "QM", "PI,B,2", "V", " QG ", "QL,0\r",
                "\tQS "]
 
 
-def gen_args(rng, name):
+def gen_args(rng, name, reset_ok=False):
     """Valid arguments for one request method."""
     r = rng.randrange
     if name == "command":
+        if reset_ok and rng.random() < 0.3:
+            return [rng.choice(RESET_TEXTS)]
         return [rng.choice(COMMAND_TEXTS)]
     if name == "query":
         return [rng.choice(QUERY_TEXTS)]
     if name == "write_nickname":
-        return [rng.choice(["Ada", "AxiDraw 7", "  padded  ", "x" * 16, "", "north-east"])]
+        return [rng.choice(["Ada", "AxiDraw 7", "  padded  ", "x" * 16, "", "north-east", "MyQT,1", "ST,x"])]
     if name == "var_write":
         return [r(256), r(32)]
     if name == "var_read":
@@ -247,12 +252,15 @@ class Patched:
 
 class World:
     """One monitored object wired to one fake port and one board."""
+    counter = 0
 
     def __init__(self, board_kwargs=None, board=None):
         self.log = serialsim.EventLog()
         self.board = board if board is not None else serialsim.Ebb3Board(**(board_kwargs or {}))
         self.plan = serialsim.FaultPlan()
         self.port = serialsim.FakePort(self.board, self.log, self.plan)
+        World.counter += 1
+        self.port.timeout = (1.0, 1.0, 2.0, None, 0.25, 10, 0)[World.counter % 7]   # as the caller opened it
         self.mon = Monitor(self.log)
         self.obj = monitored_class()()
         self.obj.__dict__["_mon"] = self.mon
@@ -267,6 +275,8 @@ class World:
         if self.open_fault:
             raise serialsim.make_exc(self.open_fault, "injected open fault")
         self.port.is_open = True
+        if timeout is not None:
+            self.port.timeout = timeout         # what the library asked for when opening
         return self.port
 
     def attach(self):
